@@ -176,6 +176,9 @@ def enum_manifests(seed):
                 names["files/sub/files/nested.conf"] = "n" * rnd.randrange(1, 20)
                 if rnd.random() < .5:
                     names["files/files.conf"] = "ff"
+            blank = s % 5 == 4   # a name the whitespace separated format cannot carry: generation must refuse it, not write a broken file
+            if blank:
+                names[rnd.choice(("files/a b.patch", "files/tab\there", "read me.txt"))] = "w"
             for n, data in names.items():
                 open(os.path.join(d, n), "w").write(data)
             chf_orders = [("size", "blake2b", "sha512"), ("size", "sha512", "blake2b"), ("sha512", "size", "blake2b")]
@@ -190,15 +193,27 @@ def enum_manifests(seed):
                     rnd.shuffle(fetch)
                     m = digest.Manifest(mpath, thin=thin)
                     cases += 1
-                    wrote = m.update(fetch, chfs=order)
                     model = {"seed": s, "thin": thin, "files": sorted(names), "distfiles": sorted(dist), "checksum_order": list(order)}
+                    try:
+                        wrote = m.update(fetch, chfs=order)
+                    except ValueError as e:
+                        if blank and not thin:
+                            if os.path.exists(mpath):
+                                note(model, f"generation refused a name with whitespace ({e}) but left a Manifest behind")
+                            continue
+                        note(model, f"Manifest generation raised {type(e).__name__}: {e}")
+                        continue
                     if thin and not dist:
                         if wrote or os.path.exists(mpath):
                             note(model, "a thin Manifest without distfiles was written")
                         continue
                     text = open(mpath).read()
                     texts.add(text)
-                    got = digest.parse_manifest(mpath)
+                    try:
+                        got = digest.parse_manifest(mpath)
+                    except Exception as e:
+                        note(model, f"the generated Manifest does not parse: {type(e).__name__}: {e}")
+                        continue
                     gd = {k: dict(v) for k, v in got[0].items()}
                     if gd != {k: dict(v) for k, v in dist.items()}:
                         note(model, f"DIST entries parse back as {gd}, generated from {dist}")
